@@ -30,7 +30,7 @@ ASSUMPTIONS = [
   "CPU device: the narrowphase result of a pair does not depend on the order in which the broadphase emitted the pairs (measured: bitwise)",
 ]
 BUDGET = {
-  "quick": dict(examples=240, seconds=150, workers=16),
+  "quick": dict(examples=240, seconds=420, workers=16),
   "thorough": dict(examples=4000, seconds=1500, workers=16),
 }
 
